@@ -56,8 +56,18 @@ def main():
             "yes" if not out.get("tests_broken_by_change") else "NO " + str(out.get("tests_broken_by_change"))[:60],
             out.get("demo_clean_exit"), out.get("demo_changed_exit"), ",".join(caught) or "MISSED", first))
         print(sid, "OK" if okk else "PROBLEM", out.get("patch_applies"), out.get("valid_seed"), caught, out.get("error", ""))
+    path = os.path.join(VERIF, "seeded", "RESULTS.md")
+    if args and os.path.exists(path):
+        # a partial re-run: replace the rows of the ids given in the existing table, keep the others
+        new = dict((l.split("|")[1].strip(), l) for l in lines[4:])
+        old = open(path).read().splitlines()
+        rows = [new.pop(l.split("|")[1].strip(), l) for l in old[4:] if l.startswith("| ")]
+        rows = sorted(rows + list(new.values()), key=lambda l: l.split("|")[1].strip())
+        lines = [lines[0] + " (rows re-run separately: {})".format(", ".join(args))] + lines[1:4] + rows
+        results = rows
+        bad = sum(1 for l in rows if "MISSED" in l or "| NO " in l or "| False |" in l and "neutralised" not in l)
     lines += ["", "{} seeded changes, {} not (valid and caught by the check of their property).".format(len(results), bad)]
-    open(os.path.join(VERIF, "seeded", "RESULTS.md"), "w").write("\n".join(lines) + "\n")
+    open(path, "w").write("\n".join(lines) + "\n")
     return 1 if bad else 0
 
 
